@@ -36,7 +36,7 @@ EXTENDS Integers, Sequences, FiniteSets, TLC
 
 CONSTANT Mode       \* "readfull" | "onecall"
 
-VARIABLES frames,     \* sequence of [k, n, g, ...]: kind, length, byte-granular
+VARIABLES frames,     \* sequence of [k, n, g, s, ...]: kind, length, byte-granular, start offset
           delivered,  \* bytes handed to the server so far
           consumed,   \* units processed so far
           events,     \* what the server has done: sequence of [f, k, got] (frame index, kind, units of it)
@@ -46,42 +46,37 @@ VARIABLES frames,     \* sequence of [k, n, g, ...]: kind, length, byte-granular
 vars == <<frames, delivered, consumed, events, asked, dead>>
 
 (* ---- arithmetic over the frame sequence ---------------------------------- *)
-RECURSIVE SumN(_, _)
-SumN(fs, i) == IF i = 0 THEN 0 ELSE fs[i].n + SumN(fs, i - 1)
+(* Frames carry their start offset s (added once by InitWith / WithStarts) so that all of this is O(1) per frame. *)
+RECURSIVE AddStarts(_, _, _)
+AddStarts(fs, i, s) == IF i > Len(fs) THEN <<>>
+                       ELSE <<fs[i] @@ [s |-> s]>> \o AddStarts(fs, i + 1, s + fs[i].n)
+WithStarts(fs) == AddStarts(fs, 1, 0)
 
-TotalOf(fs) == SumN(fs, Len(fs))
+StartOf(fs, i) == fs[i].s
+EndOf(fs, i) == IF i = 0 THEN 0 ELSE fs[i].s + fs[i].n
+TotalOf(fs) == EndOf(fs, Len(fs))
 Total == TotalOf(frames)
-StartOf(fs, i) == SumN(fs, i - 1)
-EndOf(fs, i) == SumN(fs, i)
 Start(i) == StartOf(frames, i)
 End(i) == EndOf(frames, i)
 
 Clamp(x, lo, hi) == IF x < lo THEN lo ELSE IF x > hi THEN hi ELSE x
 
 (* units of frame i that are complete within the first d bytes of the stream *)
-ProgOf(fs, i, d) == IF fs[i].g THEN Clamp(d - StartOf(fs, i), 0, fs[i].n)
-                    ELSE IF d >= EndOf(fs, i) THEN 1 ELSE 0
+ProgOf(fs, i, d) == IF fs[i].g THEN Clamp(d - fs[i].s, 0, fs[i].n)
+                    ELSE IF d >= fs[i].s + fs[i].n THEN 1 ELSE 0
 Prog(i, d) == ProgOf(frames, i, d)
 
 UnitsOf(fs, i) == IF fs[i].g THEN fs[i].n ELSE 1
 
-(* linear walks over the frame sequence: i = next frame, s = its start offset *)
-RECURSIVE UnitsFrom(_, _, _, _)
-UnitsFrom(fs, i, s, d) ==
-  IF i > Len(fs) \/ s > d THEN 0
-  ELSE (IF fs[i].g THEN Clamp(d - s, 0, fs[i].n) ELSE IF d >= s + fs[i].n THEN 1 ELSE 0)
-       + UnitsFrom(fs, i + 1, s + fs[i].n, d)
+RECURSIVE UnitsFrom(_, _, _)
+UnitsFrom(fs, i, d) == IF i > Len(fs) \/ fs[i].s > d THEN 0 ELSE ProgOf(fs, i, d) + UnitsFrom(fs, i + 1, d)
 
-UnitsWithinOf(fs, d) == UnitsFrom(fs, 1, 0, d)
+UnitsWithinOf(fs, d) == UnitsFrom(fs, 1, d)
 UnitsWithin(d) == UnitsWithinOf(frames, d)
 
 (* the event sequence as a function of the delivered byte count: the frames touched, in order, with progress *)
-RECURSIVE EvFrom(_, _, _, _)
-EvFrom(fs, i, s, d) ==
-  IF i > Len(fs) \/ s > d THEN <<>>
-  ELSE LET p == IF fs[i].g THEN Clamp(d - s, 0, fs[i].n) ELSE IF d >= s + fs[i].n THEN 1 ELSE 0
-       IN (IF p = 0 THEN <<>> ELSE <<[f |-> i, k |-> fs[i].k, got |-> p]>>) \o EvFrom(fs, i + 1, s + fs[i].n, d)
-EventsOfIn(fs, d) == EvFrom(fs, 1, 0, d)
+EventsOfIn(fs, d) == SelectSeq([i \in DOMAIN fs |-> [f |-> i, k |-> fs[i].k, got |-> ProgOf(fs, i, d)]],
+                               LAMBDA x : x.got > 0)
 EventsOf(d) == EventsOfIn(frames, d)
 
 (* the frame that owns unit number u (1-based) *)
@@ -96,7 +91,7 @@ SplitsAtomic(fs, d) == \E i \in DOMAIN fs : Atomic(fs[i]) /\ StartOf(fs, i) < d 
 
 (* ---- actions -------------------------------------------------------------- *)
 InitWith(fs) ==
-  /\ frames = fs
+  /\ frames = WithStarts(fs)
   /\ delivered = 0 /\ consumed = 0 /\ events = <<>>
   /\ asked = TRUE        \* the handler starts by reading
   /\ dead = FALSE
